@@ -1057,9 +1057,28 @@ def check_wallet_policy(chk, F):
                     p1, want_t, "the same" if bt == full else repr(bt)[:200]), where="src/descriptor/wallet_policy/mod.rs")
             except (Unsupported, Panic) as e:
                 chk.fail(R, "descriptor|" + d, "%s on %s" % (e, d), kind="unanalysable" if isinstance(e, Unsupported) else "violation")
+        # descriptors whose keys are not of the BIP-388 form (/<M;N>/* with M < N, or /**): turning one into a wallet policy
+        # must either be refused or give a policy whose text parses back to it
+        odd = ["wpkh(K0/5/<0;1>/*)", "wpkh(K0/0/*)", "wpkh(K0/<0;1>/*h)", "wpkh(K0/<0;1;2>/*)", "wpkh(K0/<1;0>/*)", "wpkh(K0/<0;1>/7/*)"]
+        for d in odd:
+            n += 1
+            full = d.replace("K0", XP[0])
+            try:
+                r = m.call_path(wfs, [full])
+                if r.variant != "Ok":
+                    chk.ok(R)
+                    continue
+                p1 = show(r.fields["0"])
+                r2 = m.call_path(wfs, [p1])
+                good = r2.variant == "Ok" and show(r2.fields["0"]) == p1
+                chk.obligation(R, good, "odd-descriptor|" + d, "WalletPolicy::from_str(%s) is accepted and prints as %s, which %s"
+                               % (d, p1, "parses" if r2.variant == "Ok" else "WalletPolicy::from_str refuses: " + repr(r2)[:100]),
+                               where="src/descriptor/wallet_policy/mod.rs")
+            except (Unsupported, Panic) as e:
+                chk.fail(R, "odd-descriptor|" + d, "%s on %s" % (e, d), kind="unanalysable" if isinstance(e, Unsupported) else "violation")
     finally:
         B.fmt_value = orig
-    chk.floor(R, "wallet-policy texts", n, 40)
+    chk.floor(R, "wallet-policy texts", n, 46)
 
 
 # ---- R10.10 descriptors with secret keys ---------------------------------------------------------------------------------
@@ -1180,3 +1199,4 @@ def run(chk):
         chk.guard("R10.10", "secret-descriptors", check_secret_descriptors, chk, F)
         from . import wholedesc
         chk.guard("R10.11", "wrapper-parsers", wholedesc.check_wrapper_parsers, chk, F, "R10.11")
+        chk.guard("R10.12", "constructed-roundtrip", wholedesc.check_constructed_roundtrip, chk, F, "R10.12")
